@@ -1,5 +1,5 @@
 (* Theorems about Engine/CrashDefs.v (logic part of property C07).  No axioms.
-   Overview at the end of the file and in README_crash.md. *)
+   Overview, theorem list and findings: Engine/README_crash.md. *)
 From NinjaV Require Import Base.Bytes Engine.CrashDefs.
 Local Open Scope Z_scope.
 
